@@ -846,6 +846,13 @@ func runCase(t failer, c *ev.Collector, cs Case) (info caseInfo) {
 			nat, tr := r.spec.expectWrite(r.fr, id, old, cur, cmd == "fset")
 			if tr.Unsure {
 				info.skipped = true
+				redefs := 0
+				for _, ps := range cs.Steps[:stepNo] {
+					if ps.Op == "redef" && ps.Fence == i {
+						redefs++
+					}
+				}
+				info.labels[fmt.Sprintf("skipped:unsure cmd=%s unchanged=%v phase=%s fence=%d redefs=%d oldspatial=%v hav=%v", cmd, s.Unchanged, s.Phase, i, redefs, old != nil && old.spatial, r.fr.hav)] = true
 				return
 			}
 			if i == 0 {
